@@ -9,7 +9,7 @@
 From Coq Require Import String Ascii List Bool Arith ZArith.
 Import ListNotations.
 Require Import PyBase PyStr Lex LexCoverFacts Symbols Split SplitFacts SplitChunks SplitChunksFacts SplitBalanceFacts Merge ParseEq ParseEqFacts ParseModel ParseModelFacts ParseModelExamples
-               ParseContribFacts ParseContribExamples FormatDecideFacts SplitInsertFacts ParseOracleFacts SplitIdemFacts ParseEqYieldFacts MergeUniqueFacts ParseCountFacts SplitFenceGuardFacts.
+               ParseContribFacts ParseContribExamples FormatDecideFacts SplitInsertFacts ParseOracleFacts SplitIdemFacts ParseEqYieldFacts MergeUniqueFacts ParseCountFacts SplitFenceGuardFacts MergeClashFacts.
 Open Scope string_scope.
 
 Section C13.
@@ -89,8 +89,8 @@ Section C13.
   (* ---- "no statement is silently discarded: each one contributes exactly one equation or verbatim block" ----
      model_chunks s = the buffers the splitting loop completes (lists of comment-stripped physical lines);
      n_emitted = what build_model_definition emits.  For EVERY input string, oracle and check_syntax setting:
-     accepted + the three guards that exclude the kept findings (since fix 85765d5 no guard about fences is needed) (one name on each left-hand
-     side, not called as a function in its own statement; no name given an equation twice)  ==>
+     accepted + the two guards that exclude the kept findings (since fixes 85765d5 / b45daa1 no guard about fences or called names is needed) (one name on each left-hand
+     side; no name given an equation twice)  ==>
      the script's lines are exactly the chunks in order, the statements are exactly the non-blank chunks, and the
      built model has exactly one equation / verbatim block per statement. *)
   Theorem C13_no_statement_discarded cs s out :
@@ -142,8 +142,8 @@ Section C13.
   (* the statement-count clause WITHOUT any guard, for EVERY accepted script: the built model has exactly as many
      equations / verbatim blocks as there are DISTINCT names to which some statement gives an equation, plus one per
      verbatim statement.  (count_new [] l = the number of distinct elements of l, C13_count_new_is_distinct_count.)
-     The three kept findings are instances: a name given an equation by two statements counts once, a statement with
-     two left-hand names counts twice, a left-hand name overwritten by a FUNCTION symbol counts zero. *)
+     The two kept findings are instances: a name given an equation by two statements counts once, a statement with
+     two left-hand names counts twice. *)
   Theorem C13_model_equation_count cs s out :
     parse_model_M chk cs s = POk out ->
     n_emitted out = count_new [] (emit_names (concat (stmt_symbols s))) + length (filter backticked (fst (split_M s))).
@@ -335,7 +335,7 @@ Theorem C13_unclosed_fence_instance :
 Proof. exact (conj (proj1 unclosed_fence_now_rejected) (conj (proj1 unclosed_fence_is_error) (proj1 (proj2 unclosed_fence_is_error)))). Qed.
 Print Assumptions C13_unclosed_fence_instance.
 
-(* "each statement contributes exactly one equation": the three ways it still fails in the faithful model *)
+(* "each statement contributes exactly one equation": the two ways it still fails in the faithful model *)
 Theorem C13_duplicate_statements_merge_refuted :
   exists s, n_statements s = 2 /\ accepted_emits s = Some 1.
 Proof. exact (ex_intro _ duplicate_statements duplicate_statements_merge). Qed.
@@ -344,7 +344,25 @@ Theorem C13_two_lhs_names_two_equations_refuted :
   exists s, n_statements s = 1 /\ accepted_emits s = Some 2.
 Proof. exact (ex_intro _ "Y,Z = 1,2" two_lhs_names_two_equations). Qed.
 Print Assumptions C13_two_lhs_names_two_equations_refuted.
-Theorem C13_lhs_name_called_drops_equation_refuted :
-  exists s, n_statements s = 1 /\ parse_model_nocheck s = POk [mkSymbol (Some "Y") TFunction None None None None].
-Proof. exact (ex_intro _ "Y = Y(1)" lhs_name_called_drops_equation). Qed.
-Print Assumptions C13_lhs_name_called_drops_equation_refuted.
+(* #19 REPAIRED by fix b45daa1 (was C13_lhs_name_called_drops_equation_refuted: 'Y = Y(1)' was accepted and contributed no
+   equation).  For EVERY term list: the symbol loop of parse_equation returns only if no name is used both as a function
+   and as a variable / parameter / error; otherwise it raises (SymbolError or ParserError by C13_every_exception_classified's
+   lemmas), in either order of the two uses.  So the statement-count guard no longer mentions functions. *)
+Theorem C13_function_name_clash_never_accepted eqn code terms syms :
+  equation_symbols eqn code terms = Ret syms ->
+  forall t1 t2, In t1 terms -> In t2 terms -> ttype t1 <> TVerbatim -> ttype t2 <> TVerbatim -> tname t1 = tname t2 ->
+  type_eqb (ttype t1) TFunction = type_eqb (ttype t2) TFunction.
+Proof. exact (equation_symbols_no_clash eqn code terms syms). Qed.
+Print Assumptions C13_function_name_clash_never_accepted.
+Theorem C13_function_and_other_use_raises eqn code terms t1 t2 :
+  In t1 terms -> In t2 terms -> tname t1 = tname t2 -> ttype t1 = TFunction -> ttype t2 <> TFunction -> ttype t2 <> TVerbatim ->
+  exists e, equation_symbols eqn code terms = Raise e.
+Proof. exact (function_and_other_use_raises eqn code terms t1 t2). Qed.
+Print Assumptions C13_function_and_other_use_raises.
+Theorem C13_function_name_clash_instances :
+  parse_model_nocheck "Y = Y(1)" = PErr SymbolError /\ parse_model_nocheck "Y = exp + exp(X)" = PErr SymbolError /\
+  parse_model_nocheck "Y = exp(X) + exp" = PErr SymbolError /\ parse_model_nocheck "Y = {a} + a(X)" = PErr SymbolError /\
+  parse_model_nocheck "Y = a(X) + <a>" = PErr SymbolError /\
+  parse_model_nocheck (lines ["Y = a + 1"; "Z = a(1)"]) = PErr SymbolError.
+Proof. exact function_name_clash_rejected. Qed.
+Print Assumptions C13_function_name_clash_instances.
